@@ -156,7 +156,9 @@ func (c *RegConfig) ParseOrResolveBlocklisted(provided string) (string, bool) {
 	if err != nil {
 		return "", lookup
 	}
-	if addr == nil || c.isBlocklistedCovertAddr(addr.IP) {
+	// An empty host resolves to an IPAddr without an IP (and no error): not an address we
+	// can vet, and dialing ":port" would connect to the station itself.
+	if addr == nil || addr.IP == nil || c.isBlocklistedCovertAddr(addr.IP) {
 		return "", lookup
 	}
 	return net.JoinHostPort(addr.String(), port), lookup
